@@ -451,3 +451,21 @@ Example C04_conditional_protects :
     JDone [[[VVec [VDbl (QArith_base.inject_Z 0); VDbl (QArith_base.Qmake 1 4)]]]] /\
   run_job (prog_q atlas4 (q_cond (BPa (PDiv (PInt 1) (PMeth "pt")))) 1) [ev_zero] = JAbort [] 0 FDivZero.
 Proof. vm_compute. split; reflexivity. Qed.
+
+(* ---------- a known finding, inside the proven fragment: First() does not stop the loop ---------- *)
+(* The translator has no `break`: the loop of a First() runs to its end, and what stands before the `if (is_first)` - the filters,
+   and the conditionals of the body - is evaluated on the elements AFTER the first one too.  LINQ's First asks nothing of those
+   elements.  Witness (known finding c04:first-keeps-filtering): two jets, the body `pt if 1/eta > 0 else 0`; the first jet's
+   value is 7, the second jet has eta = 0 - the query denotes 7, the emitted job (and the fragment's reference semantics, which
+   follows the emitted code) fails with a division by zero. *)
+Definition fkf_body : bexp := BIf {| p_neg := false; p_op := ">"; p_l := PDiv (PInt 1) (PMeth "eta"); p_r := PInt 0 |} (PMeth "pt") (PInt 0).
+Definition fkf_col : column := ColFirstB jets_g GNone fkf_body "throw std::runtime_error(""First() called on an empty sequence"");".
+Definition fkf_ev : event :=
+  {| ev_colls := [(("const xAOD::JetContainer*", "aj"), VVec [VObj 0; VObj 1])];
+     ev_meths := [((0, "pt"), VDbl (QArith_base.inject_Z 7)); ((0, "eta"), VInt 1); ((1, "pt"), VDbl (QArith_base.inject_Z 9)); ((1, "eta"), VInt 0)] |}.
+Theorem C04_fragment_first_is_lazy_refuted :
+  dnat fkf_ev (VObj 0) fkf_body = ROk (VDbl (QArith_base.inject_Z 7)) /\
+  dcol fkf_ev fkf_col = RFault FDivZero /\
+  run_event (prog_row atlas_g [("c", fkf_col)] 0) [(mem_name "c" (0 + col_size fkf_col), ("double", VUninit))] fkf_ev = RFault FDivZero.
+Proof. vm_compute. repeat split; reflexivity. Qed.
+Print Assumptions C04_fragment_first_is_lazy_refuted.
